@@ -24,7 +24,7 @@ from . import core, driver, mutants
 
 SAMPLE = {"quick": {"C17": 48, "C18": 48, "C14": 48, "C01": 2},
           "thorough": {"C17": 400, "C18": 400, "C14": 300, "C01": 16}}
-MUTANT_RUNS = {"C17": 1500, "C18": 3000, "C14": 1500, "C01": 96}  # C01: the quick-tier batch
+MUTANT_RUNS = {"C17": 1500, "C18": 3000, "C14": 1500, "C01": 112}  # C01: the quick-tier batch
 
 
 def _digests(args: tuple) -> dict:
